@@ -41,6 +41,7 @@ INVARIANT ImageAdmitted
 INVARIANT IdentityOnRepresentable
 INVARIANT CanContinue
 INVARIANT AtMostTwoImages
+INVARIANT CandsComplete
 INVARIANT RejectedStaysEmpty
 PROPERTY Monotone
 """
